@@ -33,6 +33,7 @@ CONTRACTS = {
         'property': ['C10', 'C11'],
         'params': {'vg': 'obj:BaseVariableGroup'},
         'requires': ['self._formula._numvar >= 0'],
+        'modifies': ['self._groups', 'self._formula._numvar'],
         # freshness (C10): a non-empty group is refused iff its first identifier is not above every existing variable
         'raises': {'ValueError': 'vg.ids_lo < vg.ids_hi and vg.ids_lo <= self._formula._numvar'},
         'ensures': [
@@ -136,3 +137,21 @@ CONTRACTS.update({
         'ensures': BLOCK_INV + ['self.offset == formula._numvar + 1'],
     },
 })
+
+
+# new_block(*ranges): constructor + registration = a fresh contiguous block (dimension 1 and 2 as contract variants; the constructor
+# and the index functions above are proved for arbitrary dimension)
+CLASSMODELS['ManagerV'] = dict(CLASSMODELS['VariablesManager'], real='VariablesManager')
+CONTRACTS[(V, 'ManagerV.new_block')] = {
+    'property': ['C10', 'C11'],
+    'source': (V, 'VariablesManager.new_block'),
+    'params': {'self': 'obj:ManagerV', 'ranges': 'tuple:int', 'label': 'optstr'},
+    'requires': ['self._formula._numvar >= 0'],
+    'raises': {'ValueError': None},
+    'returns': 'obj:BlockOfVariables',
+    'variants': {'dim1': {}, 'dim2': {'params': {'ranges': 'tuple:int,int'}}},
+    'ensures': ['result.ids_lo == old(self._formula._numvar) + 1', 'result.ids_hi == result.ids_lo + result.N', 'result.N >= 0',
+                'self._formula._numvar == old(self._formula._numvar) + result.N',
+                'ocount(self._groups) == ocount(old(self._groups)) + 1', 'olast(self._groups) == result'] + [c.replace('self.', 'result.') for c in BLOCK_INV],
+    'ensures_on_raise': ['self._formula._numvar == old(self._formula._numvar)', 'ocount(self._groups) == ocount(old(self._groups))'],
+}
